@@ -1,6 +1,7 @@
 """C09 - impossible dates and malformed text are rejected, cleanly."""
 import itertools
 import math
+import os
 import time
 
 from hypothesis import strategies as st
@@ -32,7 +33,10 @@ RULE = (
     "generated parser configurations: the call returns a valid object of the "
     "right class or raises a ValueError subclass, within a watchdog limit. "
     "Non-trivial: box tuples within +-1 of a range boundary; fuzz inputs that "
-    "reach a sub-parser or parse successfully. Distinct by digest.")
+    "reach a sub-parser or parse successfully. Distinct by digest. A "
+    "coverage-guided atheris/libFuzzer campaign over the same oracle (bytes "
+    "decoded to grammar tokens, vlib/fuzz) adds its executions to "
+    "'evaluations' (6k quick; 4 x 400k thorough, empty and seeded corpus).")
 ASSUMPTIONS = [
     "reference calendar vlib/refcal.py decides which tuples are real dates",
     "hang limit: 5 s for time point and duration text (<= 200 chars; typical "
@@ -583,7 +587,69 @@ def box_jobs():
     return jobs
 
 
+def run_atheris(ctx, runs, seeded_corpus, salt):
+    """Coverage-guided campaign through vlib/fuzz/parsers_atheris.py (needs
+    python3-vt = the tooling venv with atheris).  Crashing inputs are decoded
+    and re-judged here; the saved input's decoded case is the replay unit."""
+    import glob
+    import re
+    import shutil
+    import subprocess
+    import sys
+    import tempfile
+    from vlib.fuzz import codec
+    from vlib.runner import VERIF_DIR, REPO
+    exe = shutil.which("python3-vt")
+    if exe is None:
+        ctx.extra["atheris"] = "python3-vt not found: campaign skipped"
+        return
+    tmp = tempfile.mkdtemp(prefix="vfuzz.")
+    try:
+        corpus = os.path.join(tmp, "corpus")
+        os.mkdir(corpus)
+        if seeded_corpus:
+            seeds = [("timepoint", "2000-01-02T03:04:05Z"), ("timepoint", "20000102T030405+0100"),
+                     ("timepoint", "2000-W01-1T24:00"), ("timepoint", "-W-3T06:30"),
+                     ("duration", "P1Y2M3DT4H5M6,5S"), ("duration", "P0001-02-03T04:05:06"),
+                     ("recurrence", "R3/2000-01-01T00Z/P1M"),
+                     ("recurrence", "R/PT1H/2000-001T00:00Z"),
+                     ("recurrence", "R2/2000-01-01T00Z/2000-01-02T00Z")]
+            for k, (which, text) in enumerate(seeds):
+                with open(os.path.join(corpus, "seed%d" % k), "wb") as f:
+                    f.write(codec.encode(which, text, k % len(codec.CONFIGS), k % 4))
+        env = dict(os.environ, VERIF_REPO=REPO, PYTHONHASHSEED="0")
+        cmd = [exe, os.path.join(VERIF_DIR, "vlib", "fuzz", "parsers_atheris.py"),
+               corpus, "-runs=%d" % runs, "-seed=%d" % (ctx.seed % 2 ** 31 + salt or 1),
+               "-max_len=64", "-timeout=60", "-print_final_stats=1",
+               "-artifact_prefix=" + tmp + os.sep]
+        r = subprocess.run(cmd, capture_output=True, text=True, env=env, cwd=tmp)
+        m = re.search(r"number_of_executed_units:\s*(\d+)", r.stderr)
+        execs = int(m.group(1)) if m else 0
+        m = re.search(r"cov: (\d+) ft: (\d+)", r.stderr[::-1][::-1].rsplit("DONE", 1)[-1]) \
+            if "DONE" in r.stderr else None
+        ctx.extra["atheris_executions"] = ctx.extra.get("atheris_executions", 0) + execs
+        ctx.extra["atheris_campaigns"] = ctx.extra.get("atheris_campaigns", 0) + 1
+        ctx.evaluations += execs
+        for path in sorted(glob.glob(os.path.join(tmp, "crash-*")) +
+                           glob.glob(os.path.join(tmp, "timeout-*"))):
+            with open(path, "rb") as f:
+                case = codec.decode(f.read())
+            out = ctx.observe(case, check_case)
+            if not out.fail:
+                ctx.extra["atheris_unreproduced_crashes"] = ctx.extra.get(
+                    "atheris_unreproduced_crashes", 0) + 1
+        if r.returncode not in (0,) and not glob.glob(os.path.join(tmp, "crash-*")) \
+                and not glob.glob(os.path.join(tmp, "timeout-*")):
+            raise RuntimeError("atheris target failed: %s" % r.stderr[-1500:])
+    finally:
+        shutil.rmtree(tmp, ignore_errors=True)
+
+
 def run_shard(ctx):
+    if ctx.tier == "quick" and ctx.index == ctx.nshards - 1:
+        run_atheris(ctx, 6000, True, 0)
+    if ctx.tier == "thorough" and ctx.index >= ctx.nshards - 4:
+        run_atheris(ctx, 400000, ctx.index % 2 == 0, ctx.index)
     for i, case in enumerate(box_jobs()):
         if i % ctx.nshards != ctx.index:
             continue
